@@ -173,7 +173,7 @@ def unit_steps(a):
                     continue
                 seen.add(kw)
                 for bullet in "*+-":
-                    for sp in (1, 2):
+                    for sp in (1, 2, 5, 9):
                         for ind in range(0, 4):
                             yield {"sub": "step", "dialect": d, "kw": kw, "bullet": bullet, "spaces": sp, "indent": ind}
                     yield {"sub": "step", "dialect": d, "kw": kw, "bullet": bullet, "spaces": 1, "indent": 0, "history": 1}
